@@ -1,8 +1,8 @@
 (* C18 — Line protocol is segmentation-invariant; IRC messages are exactly one line.
-   Only statements here; proofs live in Proofs/LineP.v, Proofs/LineTotalP.v, Proofs/IrcP.v and
+   Only statements here; proofs live in Proofs/LineP.v, Proofs/LineTotalP.v, Proofs/IrcP.v, Proofs/IrcStreamP.v and
    Proofs/IrcRoundP.v. *)
 From Coq Require Import List NArith.
-From Circ Require Import Model.Line Model.Irc Proofs.LineP Proofs.LineTotalP Proofs.IrcP Proofs.IrcRoundP.
+From Circ Require Import Model.Line Model.Irc Proofs.LineP Proofs.LineTotalP Proofs.IrcP Proofs.IrcStreamP Proofs.IrcRoundP.
 Import ListNotations.
 Open Scope N_scope.
 
@@ -73,6 +73,16 @@ Theorem C18_one_line_protocol : forall m b, to_str m = Some b ->
   exists body, run [] [b] = ([body], []) /\ b = body ++ [13; 10].
 Proof. exact one_line_protocol. Qed.
 Print Assumptions C18_one_line_protocol.
+
+(* a stream of any number of accepted messages, cut into reads in any way, is
+   received as exactly one line per message, in order, nothing held back *)
+Theorem C18_message_stream : forall (ms : list msg) (bs chunks : list (list N)),
+  Forall2 (fun m b => to_str m = Some b) ms bs ->
+  concat chunks = concat bs ->
+  exists bodies, run [] chunks = (bodies, []) /\
+                 Forall2 (fun b body => b = body ++ [13; 10] /\ clean body) bs bodies.
+Proof. exact message_stream. Qed.
+Print Assumptions C18_message_stream.
 
 (* non-vacuity *)
 Example C18_ex_stream :
